@@ -48,6 +48,7 @@ ASSUMPTIONS = ['Python sorted() on the names is the order of the generated table
                '(cffi keeps four tables); API-mode modules get one role per name']
 BUDGET = {'quick': 480, 'thorough': 30000}
 MIN_PER_SHARD = 10
+CRASHY = True      # a lookup that loses a struct ends in Py_FatalError: reported as a violation of the case
 TIME = {'quick': 15, 'thorough': 800}
 
 ALPHA = 'abAB_01'
@@ -193,7 +194,8 @@ SPECIAL = ['bool', 'int8_t', 'uint8_t', 'int16_t', 'uint16_t', 'int32_t', 'uint3
            'intx', 'longlong', 'shorts', 'chars', 'floats', 'doubles', 'voids', 'signed_', 'unsigned_',
            'structs', 'unions', 'enums', 'consts', 'volatiles', '_Bool_', '_Complexx', '__int128_',
            '__stdcall_', '__cdecl_', 'restrict_', 'complex', 'int8', 'uint', 'Bool', '_bool', '__int128_t',
-           'BOOL', 'DWORD', 'HANDLE', 'wint_t', 'time_t', 'pid_t']
+           'BOOL', 'DWORD', 'HANDLE', 'wint_t', 'time_t', 'pid_t', 'struct_cord', 'union_node', 'enum_info_t',
+           'struct_', 'unionx', 'enum0', 'node', 'cord', 'info_t']
 SPECIAL_SET = frozenset(SPECIAL)
 
 
@@ -275,6 +277,18 @@ def _probes(names, extra):
     return out[:400]
 
 
+def _anon_td(n):
+    """is the typedef named n declared as 'typedef struct { ... } n;' (an anonymous struct known by its
+    typedef name only) rather than as an array typedef?"""
+    return n.startswith(('struct', 'union', 'enum')) or sum(map(ord, n)) % 4 == 0
+
+
+def _typedef_line(n, i):
+    if _anon_td(n):
+        return 'typedef struct { char Qf[%d]; } %s;' % (i + 1, n)
+    return 'typedef char %s[%d];' % (n, i + 1)
+
+
 def _enumerator(i):
     return 'Q%d' % i                      # 'Q' is not in ALPHA: never equal to a generated name
 
@@ -290,7 +304,7 @@ def _abi_module(names, k, tmp, uses_file=False):
         lines.append('struct %s { char Qf[%d]; };' % (n, i + 1))
         lines.append('enum %s { %s = %d };' % (n, _enumerator(i), i + 1))
     for i, n in enumerate(names):
-        lines.append('typedef char %s[%d];' % (n, i + 1))
+        lines.append(_typedef_line(n, i))
         lines.append('#define %s %d' % (n, i + 1))
     ffi = cffi.FFI()
     ffi.cdef('\n'.join(lines))
@@ -349,7 +363,7 @@ def _api_module(names, roles, ctx):
         if r == 'c':
             cdef.append('#define %s %d' % (n, i + 1)); csrc.append('#define %s %d' % (n, i + 1))
         elif r == 't':
-            cdef.append('typedef char %s[%d];' % (n, i + 1)); csrc.append('typedef char %s[%d];' % (n, i + 1))
+            cdef.append(_typedef_line(n, i)); csrc.append(_typedef_line(n, i))
         elif r == 's':
             cdef.append('struct %s { char Qf[%d]; };' % (n, i + 1)); csrc.append('struct %s { char Qf[%d]; };' % (n, i + 1))
         else:
@@ -383,7 +397,13 @@ def _check(ffi, lib, names, probes, roles, ctx, detail):
         try:
             if 't' in r:
                 t = ffi.typeof(n)
-                if t.kind != 'array' or t.length != v:
+                if _anon_td(n):
+                    # (asking for the fields makes the runtime look the struct up by its name once more)
+                    if (t.kind != 'struct' or ffi.sizeof(t) != v or [f for f, _ in t.fields] != ['Qf']
+                            or t.fields[0][1].type.length != v):
+                        ctx.fail('typedef %r of an anonymous struct resolves to %r (size %d, fields %r), expected '
+                                 'a struct with one field char Qf[%d]' % (n, t, ffi.sizeof(t), t.fields, v), **detail)
+                elif t.kind != 'array' or t.length != v:
                     ctx.fail('typedef %r resolves to %r, expected char[%d]' % (n, t, v), **detail)
                 if ffi.typeof(n + ' *').item is not t or ffi.typeof(n + '*').item is not t:
                     ctx.fail('typedef %r followed by "*" does not resolve to the same entry' % n, **detail)
